@@ -30,6 +30,11 @@ func (st *Transfer) hashSearch(targets []target, tagTable map[uint16]int, head r
 	if err != nil {
 		return err
 	}
+	if fi.Size() == 0 {
+		// Nothing to match in an empty file (rsync/match.c:match_sums only
+		// calls hash_search if len > 0), send it as a whole.
+		return st.sendFile(fileIndex, fl)
+	}
 
 	readSize := max(3*head.BlockLength, 256*1024)
 	ms := mapFile(f, fi.Size(), readSize, head.BlockLength)
